@@ -505,7 +505,15 @@ def gen_feasible(rng, p):
         m["reg_order"] = reg
     m.pop("wp_ctor_inputs", None)
     for tm in m["teams"]:
-        tm.pop("ctor_targets", None)  # the feasibility construction edits team targets after the fact; keep them two-sided
+        tm.pop("ctor_targets", None)  # the feasibility construction edits team targets after the fact ...
+    if p.get("ctor_targets"):
+        # ... so constructor-side targets (registered on the team side only) are chosen afterwards
+        cands_ = [tm for tm in m["teams"] if tm["targets"] and tm["workers"]]
+        if cands_:
+            tm_ = rng.choice(cands_)
+            sub_ = [k for k in tm_["targets"] if rng.random() < 0.6]
+            if sub_:
+                tm_["ctor_targets"] = sub_
     return m
 
 
